@@ -93,3 +93,53 @@ pub fn run_af(buf: &[u8]) -> Vec<u64> {
     obs_af(&af, buf, &mut v);
     v
 }
+
+// ---- C12 observation with the adaptation-field range fingerprint (mirrors obs_packet_c12) ----
+fn tpd_abs(af: &AdaptationField<'_>, base: &[u8]) -> Vec<u64> {
+    let mut v = vec![];
+    enc_rr(&af.transport_private_data(), &mut v, |d, v| { v.push(off_in(base, d)); v.push(d.len() as u64); });
+    v
+}
+fn fp_cands(l: u8) -> Vec<usize> {
+    let l = l as usize;
+    [l.saturating_sub(1), l, l + 1, 182, 183].iter().cloned().filter(|n| *n >= 1 && *n <= 183).collect()
+}
+pub fn run_packet_c12(buf: &[u8]) -> Vec<u64> {
+    let mut v = vec![];
+    let p = match packet::Packet::try_new(buf) { None => { v.push(0); return v; } Some(p) => p };
+    v.push(1);
+    v.push(b(p.transport_error_indicator()));
+    v.push(b(p.payload_unit_start_indicator()));
+    v.push(b(p.transport_priority()));
+    v.push(u16::from(p.pid()) as u64);
+    let tsc = p.transport_scrambling_control();
+    v.push(tsc.scheme().map(|x| x.get() as u64).unwrap_or(0));
+    v.push(b(tsc.is_scrambled()));
+    let ac = p.adaptation_control();
+    v.push(b(ac.has_adaptation_field()));
+    v.push(b(ac.has_payload()));
+    v.push(p.continuity_counter().count() as u64);
+    match p.payload() {
+        Some(d) => { v.push(1); v.push(off_in(buf, d)); v.push(d.len() as u64); }
+        None => v.push(0),
+    }
+    v.push(b(p.adaptation_field().is_some()));
+    let l = buf[4];
+    for k in [l.saturating_sub(2), l.saturating_sub(1), 181, 182] {
+        let mut q = buf.to_vec();
+        q[5] = 2; q[6] = k;
+        let pp = packet::Packet::new(&q);
+        match pp.adaptation_field() {
+            None => v.push(0),
+            Some(af) => {
+                v.push(1);
+                let via = tpd_abs(&af, &q);
+                for n in fp_cands(l) {
+                    let sa = AdaptationField::new(&q[5..5 + n]);
+                    v.push(b(tpd_abs(&sa, &q) == via));
+                }
+            }
+        }
+    }
+    v
+}
